@@ -313,17 +313,6 @@ def sanitize(c):
     # (int32 data: OverflowError) instead of widening the data.  Narrow data dtypes meet small fill values only.
     if c["fill"] == "big" and arr.get("vdtype"):
         del arr["vdtype"]
-    # TODO(defect): same root for str data: a 'U<n>' array filled with a longer str keeps its item size and the fill
-    # value is cut ('missing' -> 'miss').  str data meets the str fill as an object array only.
-    if c["fill"] == "str" and arr.get("vkind") == "U":
-        arr["vkind"] = "O"
-    # TODO(defect): and for the labels: `newobj.axes[axis][mask] = values[mask]` writes the requested labels into the
-    # float32 label array of the input, rounding them to single precision: the axis of the result is then not the
-    # requested one.  A float32 axis is asked for float32 numbers only.
-    if c["op"] == "reindex":
-        ax = axis_of(c)
-        if ax.get("ldtype") == "float32" and any(l[0] == "n" and not f32_exact(l) for l in c["labels"]):
-            del ax["ldtype"]
     return c
 
 
